@@ -69,33 +69,36 @@ Definition check (c : case) : bool := run_toks (c_names c) (c_pool c) caches_emp
 
 (* Resolver stream: a world (policies with datacenter scopes, roles, the synthetic policies the
    implementation generated for the identities in use), tokens, and the sequence in which the
-   harness resolved them through ONE consul.ACLResolver (default policy "deny").  Observed per
+   harness resolved them through ONE consul.ACLResolver; the store may change between two steps.  Observed per
    step: every method on every name on the authorizer ResolveToken returned, or an error. *)
 Record rstep := RStep {
-  rs_tok : N;                          (* index into rc_toks *)
+  rs_world : N;                        (* index into rc_worlds: the store may be written between steps *)
+  rs_tok : N;                          (* index into that world's tokens *)
   rs_expect : option string }.
 
 Record rcase := RCase {
   rc_names : list string;
-  rc_world : world;
-  rc_toks : list wtoken;
+  rc_default : static;                 (* the resolver's ACLDefaultPolicy *)
+  rc_worlds : list (world * list wtoken);
   rc_steps : list rstep }.
 
-Definition observe_chain (names : list string) (a : authorizer) : list N :=
-  map (fun m => dcode (chain_decide a deny_all m)) (methods names).
+Definition observe_chain (names : list string) (s : static) (a : authorizer) : list N :=
+  map (fun m => dcode (chain_decide a s m)) (methods names).
 
 Definition dummy_token : wtoken := WToken [] [] [] [] [].
+Definition dummy_world : world := World 0 [] [] [] [] [].
 
-Fixpoint run_steps (names : list string) (w : world) (toks : list wtoken) (c : caches) (ss : list rstep) : bool :=
+Fixpoint run_steps (names : list string) (d : static) (ws : list (world * list wtoken)) (c : caches) (ss : list rstep) : bool :=
   match ss with
   | [] => true
   | s :: ss' =>
+      let '(w, toks) := nth (N.to_nat (rs_world s)) ws (dummy_world, []) in
       let '(c', oa) := token_compile w c (nth (N.to_nat (rs_tok s)) toks dummy_token) in
-      obs_eqb (option_map (observe_chain names) oa) (rs_expect s) && run_steps names w toks c' ss'
+      obs_eqb (option_map (observe_chain names d) oa) (rs_expect s) && run_steps names d ws c' ss'
   end.
 
 Definition rcheck (r : rcase) : bool :=
-  run_steps (rc_names r) (rc_world r) (rc_toks r) caches_empty (rc_steps r).
+  run_steps (rc_names r) (rc_default r) (rc_worlds r) caches_empty (rc_steps r).
 
 Inductive anycase := PlainCase (c : case) | ResolverCase (r : rcase).
 Definition check_any (a : anycase) : bool :=
